@@ -36,7 +36,7 @@ from explorerscript.ssb_converting.compiler.compile_handlers.functions.for_targe
 from explorerscript.ssb_converting.compiler.compile_handlers.functions.simple_def import SimpleDefCompileHandler
 from explorerscript.ssb_converting.compiler.compiler_visitor.statement_visitor import StatementVisitor
 from explorerscript.ssb_converting.compiler.utils import CompilerCtx, Counter
-from explorerscript.ssb_converting.ssb_data_types import SsbRoutineInfo, SsbOperation
+from explorerscript.ssb_converting.ssb_data_types import SsbRoutineInfo, SsbRoutineType, SsbOperation
 from explorerscript.util import f, _
 
 
@@ -129,6 +129,8 @@ class RoutineVisitor(ExplorerScriptVisitor):
         if len(self.routine_infos) - 1 < self._active_routine_id:
             needed = self._active_routine_id - len(self.routine_infos) + 1
             for i in range(0, needed):
-                self.routine_infos.append(None)  # type: ignore
+                # Ids that the script skips stay in the tables as empty generic routines (like `alias previous`),
+                # the slot of the routine being compiled is overwritten when it has been collected.
+                self.routine_infos.append(SsbRoutineInfo(SsbRoutineType.GENERIC, 0))
                 self.routine_ops.append([])
                 self.named_coroutines.append([])  # type: ignore
